@@ -9,7 +9,11 @@ import (
 // PipeListener is an in-memory net.Listener handing out net.Pipe ends. net.Pipe delivers one server Read per client
 // Write (bounded by the reader's buffer), so the harness controls the server's read segmentation exactly.
 type PipeListener struct {
-	mu     sync.Mutex
+	// LateEvery k > 0: on the connections Accept hands out, every k-th non-empty Read also reports that its deadline has passed - the
+	// deadline ended the read after the bytes had arrived, and an io.Reader may return both (wrappers that fill a buffer, tunnelled
+	// transports; a plain *net.TCPConn does not). The bytes were read all the same.
+	LateEvery int
+	mu        sync.Mutex
 	ch     chan net.Conn
 	closed bool
 	done   chan struct{}
@@ -27,6 +31,9 @@ var ErrListenerClosed = errors.New("xport: listener closed")
 func (l *PipeListener) Accept() (net.Conn, error) {
 	select {
 	case c := <-l.ch:
+		if l.LateEvery > 0 {
+			return &lateConn{Conn: c, every: l.LateEvery}, nil
+		}
 		return c, nil
 	case <-l.done:
 		return nil, ErrListenerClosed
@@ -62,4 +69,22 @@ func (l *PipeListener) Dial() (net.Conn, error) {
 	case <-l.done:
 		return nil, ErrListenerClosed
 	}
+}
+
+// lateConn: see PipeListener.LateEvery.
+type lateConn struct {
+	net.Conn
+	every int
+	n     int
+}
+
+func (c *lateConn) Read(p []byte) (int, error) {
+	n, err := c.Conn.Read(p)
+	if err == nil && n > 0 {
+		c.n++
+		if c.n%c.every == 0 {
+			return n, ErrTimeout
+		}
+	}
+	return n, err
 }
